@@ -10,7 +10,7 @@ def one(d):
     json.dump(m, open(os.path.join(d, "meta.json"), "w"), indent=1)
     return m["id"], p.returncode
 ids = sys.argv[1:]
-dirs = [d for d in sorted(glob.glob("/verif/seeded/*")) if os.path.isdir(d) and (not ids or os.path.basename(d) in ids or any(os.path.basename(d).startswith(i) for i in ids))]
+dirs = [d for d in sorted(glob.glob("/verif/seeded/*")) if os.path.isdir(d) and os.path.basename(d).startswith("C") and (not ids or os.path.basename(d) in ids or any(os.path.basename(d).startswith(i) for i in ids))]
 with concurrent.futures.ThreadPoolExecutor(max_workers=3) as ex:
     for sid, rc in ex.map(one, dirs):
         print(sid, "check_exit=%s" % rc, flush=True)
